@@ -139,6 +139,7 @@ type vfC09pmH struct {
 	emitDone    int
 	closeStart  int
 	closeDone   int
+	closeDoneAtStart int // Close calls that had returned (doing nothing) before Start
 	started     bool
 	startAt     time.Duration
 	cancelAt    time.Duration
@@ -445,20 +446,32 @@ func (h *vfC09pmH) finish(report func(cls, what string)) {
 	}
 	if w := h.closeWaiting(); w > 0 {
 		report("pm-close-does-not-return", fmt.Sprintf("%d Close call(s) still blocked after the loop was cancelled and left alone", w))
-		for _, s := range h.subs { // last resort: the loop also ends when its channel is closed
-			s.Subscription.Close()
-		}
-		synctest.Wait()
+		h.lastResort() // the loop also ends when its channel is closed
 	}
 	if n := h.stalledEmits(); n > 0 {
 		report("pm-publisher-not-released", fmt.Sprintf("%d Emit call(s) still blocked after Close returned", n))
-		for _, s := range h.subs {
-			s.Subscription.Close()
-		}
-		synctest.Wait()
+		h.lastResort()
 	}
 	h.em.Close()
 	h.ps.Close()
+	synctest.Wait()
+}
+
+// lastResort frees whatever is still blocked on the manager's subscriptions so that the bubble can end: drains the
+// channels (a blocked publisher holds the bus node's lock, which Subscription.Close needs) and closes them.
+func (h *vfC09pmH) lastResort() {
+	for _, s := range h.subs {
+		ch := s.Subscription.Out()
+		go func() {
+			for range ch {
+			}
+		}()
+	}
+	synctest.Wait()
+	for _, s := range h.subs {
+		real := s.Subscription
+		go real.Close()
+	}
 	synctest.Wait()
 }
 
@@ -555,7 +568,7 @@ func (h *vfC09pmH) collect(rep func(cls, what string)) (queries []vfC09pmLog, re
 		delete(h.pend, p)
 		h.clearAsked(p)
 	}
-	if h.closeDone > 0 && h.started && h.cancelSet && !h.closedOK {
+	if h.closeDone > h.closeDoneAtStart && h.started && h.cancelSet && !h.closedOK {
 		h.closedOK = true
 		if !exited {
 			rep("pm-close-returned-before-loop-ended", "Close returned while the background loop had not unsubscribed yet (position "+pos+")")
@@ -693,7 +706,7 @@ func vfC09pmWalk(t *testing.T, res *vfh.Result, cfg vfC09pmCfg, w vfh.Walk) {
 			ok := true
 			switch op.Name() {
 			case "start":
-				h.started, h.startAt = true, h.since()
+				h.started, h.startAt, h.closeDoneAtStart = true, h.since(), h.closeDone
 				h.m.Start()
 				synctest.Wait()
 			case "emit":
